@@ -8,7 +8,7 @@ from props_ctxio import *    # C17 C18
 from props_client import *   # C11
 from props_e2e import *      # C02 C03 C12
 from props_tables import *   # C19 C20
-from props_idl import *      # C05 C06 C07 C09
+from props_idl import *      # C05 C06 C07 C08 C09
 
 
 def replay(run, obj):
